@@ -9,6 +9,7 @@ import TonicModel.Lemmas.Balance
 import TonicModel.Lemmas.BalanceRun
 import TonicModel.Lemmas.BalanceDebt
 import TonicModel.Lemmas.BalanceWitness
+import TonicModel.Lemmas.BalanceSpecMain
 /-
 C14 — A channel always answers and recovers when the peer comes back.
 Property theorems only; helper lemmas live in `Lemmas/Reconnect.lean`.
@@ -602,6 +603,31 @@ theorem C14_balanced_no_endpoint_lost_eager_fails (ch ch' : Balance.Choice) :
   have := Balance.env_up_memberKeys (Balance.call s ch).1 0
   rw [h2] at this
   simpa [Balance.members, Balance.memberKeys] using this
+
+/-- The model against the oracle, for balanced channels: for EVERY script of calls, servers
+starting and stopping, `Change::Insert` / `Change::Remove`, and for EVERY sequence of choices of
+the balancer, what the model lets the callers observe satisfies every clause of
+`Spec.Balance.clauses` — each call gets a result of its own (a hang only on a channel with no
+endpoint), an error is UNAVAILABLE-class and is given only while some endpoint of the channel
+owes a failure (it was unreachable at the time of a call, or its server was stopped, and it has
+neither answered nor been the only one owing when an error was handed out since — so a failure is
+not replayed), a response comes from a listening endpoint of the channel and from its current
+server generation, an error that is not a connect error only after a server of the channel was
+stopped, and with every endpoint reachable and none owing the call succeeds. (The oracle is
+evaluated on what the real channel did, case by case, by `./check C14`.) -/
+theorem C14_balanced_spec (ops : List BalScript.BOp) (chs : List Balance.Choice) :
+    Spec.Balance.holds ops ((Balance.run (Balance.B.init true) ops chs).map fun p => p.2.obs) = true :=
+  Balance.run_spec_init ops chs
+
+/-- … and the counter-model with non-lazy endpoint connections (seed C14e) does not: the oracle
+rejects its run on the one-endpoint witness (`definite-result`). -/
+theorem C14_balanced_spec_eager_fails :
+    ¬ (∀ (ops : List BalScript.BOp) (chs : List Balance.Choice),
+        Spec.Balance.holds ops ((Balance.run (Balance.B.init false) ops chs).map fun p => p.2.obs) = true) := by
+  intro h
+  have := h [.insert 0, .call, .up 0, .call] []
+  revert this
+  decide
 
 /-! ## non-vacuity -/
 
